@@ -8,6 +8,7 @@ import (
 	"path/filepath"
 	"sort"
 	"strings"
+	"sync"
 )
 
 // Case is one correspondence case: model function id, input, and the implementation's
@@ -34,6 +35,7 @@ type Suite struct {
 	Dist       map[string]int
 	Notes      map[string]interface{}
 	Nontrivial map[string]bool // distinct non-trivial case keys
+	mu         sync.Mutex      // Violate and Count may be called from several goroutines
 }
 
 func NewSuite() *Suite {
@@ -46,6 +48,8 @@ func (s *Suite) Add(fn int, kind string, small bool, in V, out V) {
 }
 
 func (s *Suite) Violate(what, detail string, replay V) {
+	s.mu.Lock()
+	defer s.mu.Unlock()
 	rs, ok := replay.(string)
 	if !ok {
 		rs = S(replay)
@@ -55,6 +59,13 @@ func (s *Suite) Violate(what, detail string, replay V) {
 	} else {
 		s.Dist["violations-not-listed(>200)"]++
 	}
+}
+
+// Count increments a distribution counter (safe from several goroutines).
+func (s *Suite) Count(k string) {
+	s.mu.Lock()
+	s.Dist[k]++
+	s.mu.Unlock()
 }
 
 type suiteFn func(s *Suite, rng *Rng, tier string)
